@@ -123,6 +123,9 @@ def tdvp_case(ctx, idx, rng, long=False):
         out = orig(Lb, Rb, C, dt_, numiter_)
         bond.append(('b', float(np.linalg.norm(C)), float(np.linalg.norm(out))))
         return out
+    if np.any(psi.qd) and idx % 5 == 0:
+        # the operator in a different, equally valid labelling (shifted physical labels): the state's own labels are the ones that count
+        H = gen.relabelled_operator(np.random.default_rng(idx), H)
     dH = monitor.digest(H)
     fn = ptn.integrate_local_twosite if two else ptn.integrate_local_singlesite
     with monitor.attached('pytenet.evolution._local_hamiltonian_step', around_h), monitor.attached('pytenet.evolution._local_bond_step', around_b), \
